@@ -98,13 +98,34 @@ def encodeFrame (ts : Nat) (payload : Bytes) : Except EncErr Bytes :=
 guards below never read further on an accepted path with the pinned constants. -/
 def byteAt (data : Bytes) (i : Nat) : Nat := (data.getD i 0).toNat
 
+/-- A C expression of type `int` (32 bits, two's complement) stored in a `Py_ssize_t`: the value
+of the unbounded arithmetic, wrapped. compiled.pyx:51-56 builds `record_size` from `unsigned char`
+operands, which C promotes to `int` before `<<` and `|`. -/
+def cInt32 (raw : Nat) : Int :=
+  let v : Nat := raw % 2 ^ 32
+  if v ≥ 2 ^ 31 then (v : Int) - 2 ^ 32 else (v : Int)
+
+/-- `n.to_bytes(k, order)` as Python evaluates it: `OverflowError` when `n` does not fit `k` bytes
+(orso/row.py:172-173; the statement-level translation `Gen.RowFns.as_bytes_frame` calls this). -/
+def intToBytes (n k : Nat) (order : String) : Except EncErr Bytes :=
+  if n ≥ 256 ^ k then .error .overflow
+  else .ok (if order = "big" then be k n else (be k n).reverse)
+
+/-- `a + b + …` over byte strings whose operands may raise: evaluated left to right, the first
+exception wins. -/
+def catBytes : List (Except EncErr Bytes) → Except EncErr Bytes
+  | [] => .ok []
+  | .error e :: _ => .error e
+  | .ok b :: rest =>
+    match catBytes rest with
+    | .error e => .error e
+    | .ok bs => .ok (b ++ bs)
+
 /-- compiled.pyx:51-56: the bytes at the extracted offsets, shifted and OR-ed. The C expression
 has type `int` (each `unsigned char` is promoted before `<<`), so a value with bit 31 set is
 negative once stored in `Py_ssize_t`: two's-complement wrap at 32 bits. -/
 def recordSize (data : Bytes) : Int :=
-  let raw : Nat := Gen.Row.lengthField.foldl (fun acc p => acc ||| (byteAt data p.1 <<< p.2)) 0
-  let v : Nat := raw % 2 ^ 32
-  if v ≥ 2 ^ 31 then (v : Int) - 2 ^ 32 else (v : Int)
+  cInt32 (Gen.Row.lengthField.foldl (fun acc p => acc ||| (byteAt data p.1 <<< p.2)) 0)
 
 /-- The outcome of one test: `none` = an operator the model does not know, `some none` = passed,
 `some (some e)` = the `DataError` it raises. -/
